@@ -2232,8 +2232,16 @@ impl<E: Effect> Executor<E> {
 
         // If we found PIDs, register awaits before processing sources
         if !pid_targets.is_empty() {
+            // Re-awaiting a process discards the result stored by an earlier select on it; that
+            // value leaves the awaiting map, so its references must be released.
+            let mut displaced = Vec::new();
             for target in &pid_targets {
-                process.awaiting.insert(*target, None);
+                if let Some(Some(old_result)) = process.awaiting.insert(*target, None) {
+                    displaced.push(old_result);
+                }
+            }
+            for old_result in &displaced {
+                self.release(old_result);
             }
 
             self.mark_selecting(pid);
